@@ -30,7 +30,7 @@ import os
 from pv import facts
 from pv.report import Result, finish
 from pv.hirwalk import walk
-from pv.x_codec import (Model, check_types, load_table, shape_str, Arm, Tok, Unanalysable, parse_type, type_str, ENC_T, DEC_T)
+from pv.x_codec import (Model, load_table, shape_str, Arm, Tok, Unanalysable, parse_type, type_str, DEC_T)
 from pv.x_preserve import Classes, fields_of, short
 
 CRATE = "pallas_primitives"
@@ -56,6 +56,71 @@ def load_codec_table():
     for sec in ("opaque", "fragments", "raw_heads", "param_arity"):
         t.setdefault(sec, {}).update(own.get(sec, {}))
     return t, own
+
+
+# ---------------------------------------------------------------------------------------------- (1) pairs
+def analyse_feasible(m, adt, fragments):
+    """m.analyse(adt) minus the encoder paths that assume `self` is none of the variants of its (exhaustive) enum: two
+    consecutive `if let V(..) = self` make the interpreter enumerate such a path, which no value can take."""
+    rep = m.analyse(adt, fragments=fragments)
+    a = m.adts.get(adt)
+    if a is None or a.get("kind") != "Enum":
+        return rep
+    variants = {v["name"] for v in a["variants"]}
+    dead = set()
+    for im, arm in rep.arms:
+        f = arm.facts.get("self")
+        if f and f[0] == "notvar" and set(f[1]) >= variants:
+            dead.add(arm.label)
+    if not dead:
+        return rep
+
+    def about_dead(key):
+        return any(key.endswith(":" + l) or (":%s:" % l) in key for l in dead)
+    rep.arms = [(im, arm) for im, arm in rep.arms if arm.label not in dead]
+    rep.ok = [(k, d) for k, d in rep.ok if not about_dead(k)]
+    keep = []
+    for f in rep.findings:
+        if about_dead(f.key):
+            continue
+        if f.kind == "arity":
+            tops = {arm.n_top for im, arm in rep.arms if arm.kind == "ok" and not arm.problems}
+            if len(tops) == 1:
+                n = next(iter(tops))
+                rep.arity = n
+                if n == 1 or adt in fragments:
+                    continue
+        keep.append(f)
+    rep.findings = keep
+    rep.notes.append("%d unreachable encoder path(s) (self is none of its variants) ignored" % len(dead))
+    return rep
+
+
+def pairs_clause(res, m, adts, table, used_table):
+    """the recording loop of pv.x_codec.check_types, over analyse_feasible"""
+    opaque = table.get("opaque", {})
+    fragments = table.get("fragments", {})
+    reps = {}
+    for adt in adts:
+        r = analyse_feasible(m, adt, fragments)
+        reps[adt] = r
+        res.count("types analysed")
+        res.count("Encode impls analysed", len(r.enc))
+        res.count("Decode impls analysed", len(r.dec))
+        res.count("encoder arms", len(r.arms))
+        for key, detail in r.ok:
+            res.ok(key, "R-SHAPE" if key.startswith("wf:") else "R-DUAL", detail)
+            res.count("arms well-formed" if key.startswith("wf:") else "arms dual to the decoder")
+        for f in r.findings:
+            if f.kind == "unan" and f.key in opaque:
+                res.count("arms accepted by the reviewed opaque tables")
+                res.ok(f.key, "table", "not abstracted; reviewed: %s" % opaque[f.key])
+                used_table.add(f.key)
+                continue
+            res.violation(f.key, f.msg, where=f.where, rule={"wf": "R-SHAPE", "arity": "R-SHAPE", "panic": "R-SHAPE", "dual": "R-DUAL", "unan": "R-SHAPE(unanalysable)"}[f.kind])
+        for n in r.notes:
+            res.notes.append("%s: %s" % (short(adt), n))
+    return reps
 
 
 # ---------------------------------------------------------------------------------------------- (3) R-INJ
@@ -241,8 +306,10 @@ def inj_clause(res, m, adts, K):
 
 # ---------------------------------------------------------------------------------------------- (3) mixed pairs
 def _first_decoder_call(im):
+    """name of the first Decoder method a derive-generated decode calls that consumes input (position / probe / input /
+    datatype only look)"""
     for x in walk(im.hir["root"]):
-        if x.get("k") == "mcall" and (x.get("def") or "").startswith(DEC_T + "::"):
+        if x.get("k") == "mcall" and (x.get("def") or "").startswith(DEC_T + "::") and x.get("name") not in ("position", "set_position", "input", "probe", "datatype"):
             return x.get("name")
     return None
 
@@ -295,7 +362,7 @@ def mixed_clause(res, m, adts, table, used_table):
             n += 1
             first = _first_decoder_call(dd[0])
             accept = {"array": {"Array", "ArrayIndef"}, "map": {"Map", "MapIndef"}}.get(first)
-            rep = m.analyse(path, fragments=table.get("fragments", {}))
+            rep = analyse_feasible(m, path, table.get("fragments", {}))
             for f in rep.findings:
                 if f.kind == "unan" and f.key in opaque:
                     used_table.add(f.key)
@@ -358,12 +425,12 @@ def row_status(K, adts, row, kind):
             if raw:
                 good += 1
             else:
-                bad.append((fk, ty, "no raw-preserving wrapper above it"))
+                bad.append((fk, ty, "has no raw-preserving wrapper above it"))
         else:
             lossy = [p for c, p in above_raw if c == "lossy"]
             pres = [p for c, p in above_raw if c == "preserving"]
             if lossy:
-                bad.append((fk, ty, "inside %s, which forgets the form (definite/indefinite, entry order) it was read in" % short(lossy[-1])))
+                bad.append((fk, ty, "is inside %s, which forgets the form (definite/indefinite, entry order) it was read in" % short(lossy[-1])))
             elif pres or raw:
                 good += 1
     if bad:
@@ -389,7 +456,7 @@ def rows_clause(res, K, adts, ptable, kind, rule):
         else:
             for fk, ty, what in st[1]:
                 res.violation("%s:%s" % (base.replace(":holds=", ":%s:holds=" % fk, 1), "lost"),
-                              "%s.%s : %s — %s is %s; %s" % (
+                              "%s.%s : %s — %s %s; %s" % (
                                   short(row["in"]), fk, short(ty), short(row["holds"]), what,
                                   "the original bytes of this on-chain artefact are no longer kept, so re-encoding (and hashing) no longer reproduces what was read" if kind == "raw"
                                   else "a definite/indefinite (or differently ordered) original re-encodes to different bytes"),
@@ -485,7 +552,7 @@ def run(tier):
             enc_only.append(p)
         elif (he or hd) and ad and not ae:
             dec_only.append(p)
-    reps = check_types(res, m, pairs, table, used)
+    reps = pairs_clause(res, m, pairs, table, used)
     n_arms = sum(1 for r in reps.values() for _, a in r.arms if a.kind == "ok")
     n_dual = sum(1 for r in reps.values() for k, _ in r.ok if k.startswith("dual:"))
     res.floor("types with a hand-written or macro-generated Encode+Decode pair (1)", len(pairs), 9)
